@@ -686,6 +686,15 @@ Proof.
   destruct (tok_at_span t k Hin) as (c0 & r0 & a & b & _ & _ & _ & ->). cbn [bind]. eauto.
 Qed.
 
+(* the parser proper on scanner output never runs out of the fuel it is given *)
+Theorem parse_fuel_enough t ts : scan t = Ok ts -> known_C06 t = false ->
+  safe (parse (parse_fuel ts) t ts).
+Proof.
+  intros Hs Hk. unfold known_C06 in Hk. rewrite Hs in Hk.
+  apply (proj1 (parse_safe (parse_fuel ts) t) ts (scan_tok_at _ _ Hs) Hk).
+  unfold parse_fuel. lia.
+Qed.
+
 (* the class is not empty: the pinned code panics (debug build) *)
 Theorem parse_text_refuted :
   exists t, known_C06 t = true /\ parse_text t = Panic P_I32_OVERFLOW.
